@@ -325,6 +325,56 @@ impl Check for C06 {
                 });
             }
         }
+        // large surfaces (more than 65536 pixels): layers narrower than the surface and taller than
+        // any plausible band, content that differs from row to row and column to column
+        {
+            let sizes: Vec<(i32, i32)> = if q { vec![(300, 300)] } else { vec![(300, 300), (70, 1000), (1100, 64)] };
+            let kinds: [(f32, BlendMode); 4] = [(1.0, BlendMode::SrcOver), (0.5, BlendMode::SrcOver), (0.75, BlendMode::Multiply), (1.0, BlendMode::Src)];
+            run.bound("large surfaces", format!("{:?} x 4 (opacity, blend) pairs x 3 clip contexts (none, inset clip rect, inset clip rect popped inside the layer) x 2 contents (repeating 7x5 image, big triangle + nested layer)", sizes));
+            run.par(sizes.len() * 4 * 3, |s, l| {
+                let (w, h) = sizes[s / 12];
+                let (o, b) = kinds[(s / 3) % 4];
+                let ctx = s % 3;
+                let (wf, hf) = (w as f32, h as f32);
+                let img = super::c03::image_of(7, 5, &VALS12, 2);
+                for content in 0..2 {
+                    let mut ops = Vec::new();
+                    if ctx > 0 {
+                        ops.push(Op::PushClipRect(w / 6, h / 30, w - w / 6, h - h / 30));
+                    }
+                    ops.push(Op::PushLayer(o, b));
+                    if ctx == 2 {
+                        ops.push(Op::PopClip);
+                    }
+                    if content == 0 {
+                        ops.push(Op::FillRect(0., 0., wf, hf, SrcSpec::Image { w: 7, h: 5, data: img.clone(), repeat: true, bilinear: false, xf: IDENT }, Opts { mode: BlendMode::Src, alpha: 1.0, aa: true }));
+                    } else {
+                        ops.push(Op::Fill(PathSpec::poly(&[(1.5, 0.25), (wf - 0.75, hf * 0.4), (wf * 0.3, hf - 1.25)]), SrcSpec::Solid(0x80402010), Opts::default()));
+                        ops.push(Op::PushLayer(0.5, BlendMode::SrcOver));
+                        ops.push(Op::Fill(PathSpec::poly(&[(wf - 2.0, 1.0), (3.25, hf * 0.5), (wf * 0.8, hf - 2.0)]), SrcSpec::Solid(0xff204080), Opts::default()));
+                        ops.push(Op::PopLayer);
+                    }
+                    ops.push(Op::PopLayer);
+                    if ctx == 1 {
+                        ops.push(Op::PopClip);
+                    }
+                    let scene = Scene { w, h, dst: Dst::White, ops };
+                    l.states += 1;
+                    l.transitions += scene.ops.len() as u64;
+                    l.traces += 1;
+                    l.evals += 1;
+                    match super::mixed::eval_mixed(&scene, &owns, true) {
+                        Ok(st) => {
+                            l.count("pixels_checked", st.checked);
+                            l.count(if st.foreign { "large_scenes_stopped_by_foreign_violation_or_dependency_panic" } else { "large_scenes_fully_checked" }, 1);
+                            l.nontrivial += 1;
+                            l.outcome(st.hash);
+                        }
+                        Err(v) => run.report(800_000 + s, v),
+                    }
+                }
+            });
+        }
         super::mixed::explore_mixed(run, "C06", owns, if q { 5 } else { 6 }, true);
     }
 
